@@ -106,18 +106,30 @@ def write_tree(root, files):
             f.write(text)
 
 
-def run_generator(xml_root, out_root):
-    """Run the real generator; returns (ok, exception_or_None, captured_stdout)."""
+def run_generator(xml_root, out_root, spelling="absolute"):
+    """Run the real generator; returns (ok, exception_or_None, captured_stdout).
+    spelling: how the two roots are written - 'absolute', 'dot' (input root = working directory, given as '.'),
+    'relative' (both relative to the working directory)."""
     from pathlib import Path
 
     gen = generator_class()
     buf = io.StringIO()
+    cwd = os.getcwd()
     try:
         with contextlib.redirect_stdout(buf):
-            gen(Path(xml_root)).generate(Path(out_root))
+            if spelling == "dot":
+                os.chdir(xml_root)
+                gen(Path(".")).generate(Path(out_root))
+            elif spelling == "relative":
+                os.chdir(os.path.dirname(xml_root))
+                gen(Path(os.path.basename(xml_root))).generate(Path(os.path.relpath(out_root)))
+            else:
+                gen(Path(xml_root)).generate(Path(out_root))
         return True, None, buf.getvalue()
     except Exception as e:  # the generator signals every rejection with an exception
         return False, e, buf.getvalue()
+    finally:
+        os.chdir(cwd)
 
 
 class Staged:
@@ -147,7 +159,7 @@ def copy_static_package(dst_parent):
     return dst
 
 
-def full(files, do_import=True):
+def full(files, do_import=True, spelling="absolute"):
     """Stage a spec tree: returns (Staged or None, ok, error, stdout)."""
     root = scratch("vf-full-")
     xml_root = os.path.join(root, "xml")
@@ -156,7 +168,7 @@ def full(files, do_import=True):
     pkg_parent = os.path.join(root, "pkg")
     os.makedirs(pkg_parent)
     pkg = copy_static_package(pkg_parent)
-    ok, err, out = run_generator(xml_root, os.path.join(pkg, "protocol", "_generated"))
+    ok, err, out = run_generator(xml_root, os.path.join(pkg, "protocol", "_generated"), spelling)
     st = Staged(root, pkg_parent)
     if not ok:
         st.close()
